@@ -642,7 +642,7 @@ Proof. intros a b B H y Hy. apply H. apply in_app_iff. auto. Qed.
 
 Lemma stmt_inv : forall x, PS2 x.
 Proof.
-  induction x using stmt_ind'; try (intros Hs; discriminate); try rename e into e0;
+  induction x using stmt_ind'; try (intros Hs; discriminate); try rename e into e0; try rename ex into exs;
     intros Hs exp l L' acc accs ex s e tr HI Hin e' rds Esem; unfold NS in *.
   - (* SExpr *)
     cbn in Esem. injection Esem as <- <-. cbn [s2_stmt vstmt bsrcs map] in *.
@@ -759,6 +759,10 @@ Proof.
     intros exp2 I2.
     apply (block_inv f H2 Hd _ _ _ _ _ _ _ _ _ I2 (NS_incl_r _ _ _ (NS_incl_r _ _ _ Hin)) _ _ E3).
   - (* SPass *)
+    cbn in Esem. injection Esem as <- <-. cbn [vstmt bsrcs map].
+    destruct (PostS_refl _ _ _ _ _ _ _ _ _ (Inv2_with_ln _ _ _ _ _ _ _ _ _ ln HI)) as (exp1 & X1 & I1 & N1).
+    exists exp1. split. exact X1. split. exact I1. exact N1.
+  - (* SDoc: a plain string statement *)
     cbn in Esem. injection Esem as <- <-. cbn [vstmt bsrcs map].
     destruct (PostS_refl _ _ _ _ _ _ _ _ _ (Inv2_with_ln _ _ _ _ _ _ _ _ _ ln HI)) as (exp1 & X1 & I1 & N1).
     exists exp1. split. exact X1. split. exact I1. exact N1.
